@@ -253,19 +253,65 @@ class StreamEnd:
         return recs
 
 
+class MqttEnd:
+    """The broker side of a real MQTTClient over a fake aiomqtt client: lines arrive as broker
+    messages on the in-prefix, writes are what the client publishes under the out-prefix."""
+
+    def __init__(self, loop) -> None:
+        from aiomysensors.transport import mqtt as mqtt_mod
+
+        from .mqttcheck import FakeAioMqtt, _Msg
+        self._msg = _Msg
+        mqtt_mod.AsyncioClient = FakeAioMqtt
+        FakeAioMqtt.connect_fault = False
+        FakeAioMqtt.current = None
+        self.transport = mqtt_mod.MQTTClient("broker.invalid", in_prefix="verif/in", out_prefix="verif/out")
+        loop.run_until_complete(self.transport.connect())
+        self.fake = FakeAioMqtt.current
+        self.taken = 0
+
+    def feed(self, line: str) -> None:
+        body = line.rstrip("\n")
+        parts = body.split(";", 5)
+        topic = "verif/in/" + "/".join(parts[:5])
+        self.fake.queue.put_nowait(self._msg(topic, (parts[5] if len(parts) > 5 else "").encode("utf-8")))
+
+    def new_writes(self) -> list[dict]:
+        pubs = self.fake.published[self.taken:]
+        self.taken = len(self.fake.published)
+        recs = []
+        for pub in pubs:
+            levels = pub["topic"].split("/")
+            ok_prefix = levels[:2] == ["verif", "out"] and len(levels) == 7    # prefix + node/child/command/ack/type
+            pay = pub["payload"]
+            if isinstance(pay, bytes):
+                pay = pay.decode("utf-8", "replace")
+            rec = parse_write(";".join(levels[2:] + [pay or ""]) + "\n") if ok_prefix else parse_write(None)
+            if not rec.get("raw") and pub["qos"] != rec["ack"]:
+                rec = dict(rec, p=rec["p"] + f" <qos {pub['qos']}>")
+            rec["ids"] = []
+            rec["ok"] = True
+            recs.append(rec)
+        return recs
+
+
 class Run:
     """One execution of the real gateway."""
 
     def __init__(self, init: dict) -> None:
         self.loop = asyncio.new_event_loop()
         self.stream = None
+        self.mqtt = None
         if init.get("stream"):
             self.stream = StreamEnd(self.loop, init.get("stream_limit", 2 ** 16))
             self.transport = self.stream.transport
+        elif init.get("mqtt"):
+            self.mqtt = MqttEnd(self.loop)
+            self.transport = self.mqtt.transport
         else:
             self.transport = FakeTransport()
         self.gateway = Gateway(self.transport, Config(metric=init.get("metric", True)))
-        if self.stream is None:
+        if self.stream is None and self.mqtt is None:
             self.transport.gateway = self.gateway
         build_registry(self.gateway, init.get("nodes", []))
         if init.get("ver", "none") != "none":
@@ -319,7 +365,7 @@ class Run:
             "fault": (ev.get("fault") or "").split(":")[0],
         }
         rec["pre"] = proj(gw)
-        if self.stream is None:
+        if self.stream is None and self.mqtt is None:
             tr.writes = []
             tr.fail_if = fault_selector(ev)
         t0 = time.time()
@@ -328,6 +374,14 @@ class Run:
             # the line travels as bytes through the real stream transport
             raw = bytes(ev["raw"]) if "raw" in ev else (ev["line"] if kind == "recvbad" else line_of(ev)).encode("utf-8")
             self.stream.reader.feed_data(raw)
+            if self.gen is None:
+                self.gen = gw.listen()
+            val, err = self._await(self.gen.__anext__())
+            if err is not None:
+                self.gen = None
+            out = self._outcome(val, err, yielded=True)
+        elif kind == "recv" and self.mqtt is not None:
+            self.mqtt.feed(line_of(ev))
             if self.gen is None:
                 self.gen = gw.listen()
             val, err = self._await(self.gen.__anext__())
@@ -381,7 +435,9 @@ class Run:
         else:
             raise ValueError(kind)
         t1 = time.time()
-        if self.stream is None:
+        if self.mqtt is not None:
+            writes = self.mqtt.new_writes()
+        elif self.stream is None:
             tr.fail_if = None
             writes = tr.writes
         else:
